@@ -10,3 +10,25 @@ type LoadFormer interface {
 	// or panic if that is not possible.
 	LoadForm() Object
 }
+
+// ValueLoadForm returns a form that evaluates to obj when obj is a value held
+// by some other object (an element of a list, a hash table entry, a slot
+// value). nil and keywords evaluate to themselves, any other symbol is quoted,
+// and everything else is replaced by its own load form. It panics with a
+// print-not-readable error if obj has no load form.
+func ValueLoadForm(obj Object) Object {
+	switch to := obj.(type) {
+	case nil:
+		return nil
+	case Symbol:
+		if 0 < len(to) && to[0] == ':' {
+			return to
+		}
+		return List{quoteSymbol, to}
+	case LoadFormer:
+		return to.LoadForm()
+	default:
+		PrintNotReadablePanic(NewScope(), 0, to, "Can not make a load form for %s.", to)
+	}
+	return nil
+}
